@@ -433,6 +433,13 @@ func (vc *VC) evalIndex(e SIndex, env *Env) SpecVal {
 	case x.Sort == "Str":
 		i := vc.evalInt(e.I, env)
 		return ghostVal(sx("sat", x.T, i), "Int")
+	case x.Sort == "Loc" && isMapType(x.GoT):
+		// m[k]: the stored value (meaningful where has(m, k))
+		x = vc.materialize(x, env)
+		h := vc.mapHeap(x.GoT)
+		k := vc.materialize(vc.eval(e.I, env), env)
+		et := x.GoT.Underlying().(*types.Map).Elem()
+		return SpecVal{T: sx("select", sx("select", vc.heapGet(env.st, h+"_val"), x.T), k.T), Sort: vc.enc.SortOf(et), GoT: et}
 	case strings.HasPrefix(x.Sort, "(Array "):
 		i := vc.eval(e.I, env)
 		_, rng := arraySorts(x.Sort)
@@ -440,6 +447,14 @@ func (vc *VC) evalIndex(e SIndex, env *Env) SpecVal {
 	}
 	specFail("cannot index %s (sort %s)", e.X, x.Sort)
 	return SpecVal{}
+}
+
+func isMapType(t types.Type) bool {
+	if t == nil {
+		return false
+	}
+	_, ok := t.Underlying().(*types.Map)
+	return ok
 }
 
 func arraySorts(s string) (string, string) {
@@ -621,8 +636,30 @@ func (vc *VC) evalCall(c SCall, env *Env) SpecVal {
 		n := *env
 		n.st = lb.st
 		return vc.materialize(vc.eval(c.Args[1], &n), &n)
+	case "has":
+		// has(m, k): k is a key of map m
+		m := arg(0)
+		if !isMapType(m.GoT) {
+			specFail("has: first argument must be a map")
+		}
+		h := vc.mapHeap(m.GoT)
+		return ghostVal(and(not(eq(m.T, nilLoc)), sx("select", sx("select", vc.heapGet(env.st, h+"_dom"), m.T), arg(1).T)), "Bool")
+	case "dom":
+		m := arg(0)
+		if !isMapType(m.GoT) {
+			specFail("dom: argument must be a map")
+		}
+		h := vc.mapHeap(m.GoT)
+		ks, _ := vc.mapSorts(m.GoT)
+		return ghostVal(sx("select", vc.heapGet(env.st, h+"_dom"), m.T), fmt.Sprintf("(Array %s Bool)", ks))
 	case "len":
 		v := arg(0)
+		if isMapType(v.GoT) {
+			h := vc.mapHeap(v.GoT)
+			t := sx("select", vc.heapGet(env.st, h+"_size"), v.T)
+			vc.assume("true", and(sx("<=", "0", t), sx("<=", t, MAXLEN)))
+			return ghostVal(t, "Int")
+		}
 		switch v.Sort {
 		case "Slice":
 			return ghostVal(sx("s_len", v.T), "Int")
